@@ -273,6 +273,12 @@ func genOpenBytes(rt *rapid.T) c15Bytes {
 	if rapid.IntRange(0, 9).Draw(rt, "random") == 0 {
 		return c15Bytes{B: genBytes(rt, "raw", 300), Muts: -1}
 	}
+	if rapid.IntRange(0, 3).Draw(rt, "grammar") == 0 {
+		// the structural fault grammar of C02 (empty / trailing / split capability
+		// parameters, stray octets, inconsistent length octets, ...), which byte-level
+		// mutation of a valid encoding reaches only rarely
+		return c15Bytes{B: genC02(rt).Body, Muts: 1}
+	}
 	o := genOpenValue(rt)
 	b, n := mutateBytes(rt, o.Body())
 	return c15Bytes{B: b, Muts: n}
